@@ -131,6 +131,8 @@ class simulation_model():
         self.points = {
             {% for gf in gfs -%}
             '{{ gf.name }}' :  {{ gf.points}}  , {% endfor %}
+            {% for gf in flowgfs -%}
+            '{{ gf.name }}' :  {{ gf.points}}  , {% endfor %}
         }
     
     
